@@ -75,8 +75,12 @@ def run_case(case, mir, schema, native=None, quick=True):
            "bounds": case.bounds, "notes": case.notes, "obligations": [], "functions": []}
     h = Harness(mir, case.name, case.prop, max_paths=case.max_paths, loop_bound=case.loop_bound, timeout_ms=case.timeout_ms)
     b = Builder(h, schema)
+    b.fixed = dict(getattr(case, "fixed", {}) or {})
     for pat, fn in case.stubs.items():
         h.eng.stubs[mir.find_fn(pat)] = fn
+    for wname, wfields in getattr(schema, "wrappers", {}).items():
+        mir.struct_fields[wname] = wfields
+        mir.struct_fields_all[wname] = [wfields]
     res["stubs"] = sorted(case.stubs)
     try:
         recv_val = b.value(case.recv_ty, case.recv) if case.recv is not None else None
@@ -85,7 +89,9 @@ def run_case(case, mir, schema, native=None, quick=True):
         for c in case.calls:
             row = []
             for (ty, t) in c.args:
-                if ty.startswith("&"):
+                if ty.startswith("@"):
+                    row.append(("@", ty[1:]))  # pointer into the receiver, resolved at call time
+                elif ty.startswith("&"):
                     row.append(h.put(st, b.value(ty[1:].strip(), t)))
                 else:
                     row.append(b.value(ty, t))
@@ -96,7 +102,16 @@ def run_case(case, mir, schema, native=None, quick=True):
             else:
                 h.real(nme)
         S = dict(h.syms)
+        S.update(b.fixed)
         assumptions = case.assume(S) if case.assume else []
+        assumptions = [(t, c) for (t, c) in assumptions if not (isinstance(c, bool) and c)]
+        if any(isinstance(c, bool) and not c for (_, c) in assumptions):
+            res["status"] = "pass"
+            res["notes"] = list(res.get("notes") or []) + ["this fixed-parameter combination is excluded by the assumptions (no admissible input)"]
+            res["summary"] = h.summary()
+            res["wall_s"] = 0.0
+            res["skipped_inadmissible"] = True
+            return res
         for (text, c) in assumptions:
             h.assume(c, text)
         res["assumptions"] = [t for (t, _) in assumptions]
@@ -108,7 +123,15 @@ def run_case(case, mir, schema, native=None, quick=True):
         for ci, c in enumerate(case.calls):
             nxt = []
             for (s, _) in live:
-                args = ([p] if p is not None and not case.free_fn else []) + list(call_args[ci])
+                def _sub(pp0, path):
+                    pp = pp0
+                    for seg in path.split("."):
+                        cur = h.eng.load_ptr(s, pp)
+                        idx = 0 if isinstance(cur, Enum) else mir.field_index(cur.ty, seg, len(cur.fields))
+                        pp = Ptr(pp.root, pp.path + (idx,))
+                    return pp
+                resolved = [(_sub(p, a[1]) if isinstance(a, tuple) and len(a) == 2 and a[0] == "@" else a) for a in call_args[ci]]
+                args = ([p] if p is not None and not case.free_fn else []) + resolved
                 if c.recv_path:
                     base = h.deref(s, p)
                     # pointer to a sub-object of the receiver
@@ -118,9 +141,9 @@ def run_case(case, mir, schema, native=None, quick=True):
                         if isinstance(cur, Enum):
                             idx = 0
                         else:
-                            idx = mir.struct_fields[cur.ty].index(seg)
+                            idx = mir.field_index(cur.ty, seg, len(cur.fields))
                         pp = Ptr(pp.root, pp.path + (idx,))
-                    args = [pp] + list(call_args[ci])
+                    args = [pp] + resolved
                 outs = h.run(c.fn, s, args)
                 for o in outs:
                     k = outcome_kind(o)
@@ -233,7 +256,7 @@ def replay(case, b, schema, model, claim, native, claim_name):
     recv_json = b.json(case.recv_ty, case.recv, model) if case.recv is not None else None
     calls = []
     for c in case.calls:
-        calls.append({"fn": c.fn, "recv_path": c.recv_path, "args": [b.json(ty.lstrip("&").strip(), t, model) for (ty, t) in c.args]})
+        calls.append({"fn": c.fn, "recv_path": c.recv_path, "args": [b.json(ty.lstrip("&").strip(), t, model) for (ty, t) in c.args if not ty.startswith("@")]})
     req = {"recv_ty": case.recv_ty if case.recv is not None else "<free>", "recv": recv_json, "calls": calls}
     resp = native.call(req)
     out = {"request": req, "response_kind": resp.get("kind"), "step": resp.get("step")}
@@ -256,6 +279,7 @@ def replay(case, b, schema, model, claim, native, claim_name):
     post = JAcc(schema, case.recv_ty, resp.get("recv")) if resp.get("recv") is not None else None
     argv = [[_jnum(a) for a in c["args"]] for c in calls]
     S = {k: v for k, v in model.items()}
+    S.update(getattr(case, "fixed", {}) or {})
     if claim.when in ("ok", "err") and claim.when != kind:
         out["reproduced"] = False
         out["note"] = f"native outcome kind {kind} differs from the symbolic path kind {claim.when}"
